@@ -169,6 +169,15 @@ func (x *fnExec) load(st *State, p Val, t types.Type) Val {
 	v := unflatten(t, &ts)
 	x.recordRefs(v)
 	x.heapWF(st, v)
+	if strings.HasPrefix(p.Prefix, "G:Err") && v.K == VIface {
+		// package-level error sentinels are initialised with errors.New and never reassigned
+		x.assumed["package-level Err* sentinels are non-nil"] = true
+		t := Not(Eq(v.Fs[0].T, BVU(0, 64)))
+		if !x.wfSeen[t.id] {
+			x.wfSeen[t.id] = true
+			x.facts = append(x.facts, Fact{x.next(), t})
+		}
+	}
 	return v
 }
 
@@ -315,6 +324,10 @@ func (x *fnExec) typeTag(t types.Type) *Term {
 	if !ok {
 		id = len(x.P.typeTags) + 1
 		x.P.typeTags[k] = id
+		if x.P.tagTypes == nil {
+			x.P.tagTypes = map[int]types.Type{}
+		}
+		x.P.tagTypes[id] = t
 	}
 	return BVU(uint64(id), 64)
 }
@@ -1113,8 +1126,8 @@ func (x *fnExec) index(fr *frame, st *State, t *ssa.Index) {
 }
 
 func (x *fnExec) makeSlice(fr *frame, st *State, t *ssa.MakeSlice) {
-	ln := SignExt(x.val(fr, t.Len).T, 64)
-	cp := SignExt(x.val(fr, t.Cap).T, 64)
+	ln := to64(x.val(fr, t.Len).T, isSigned(t.Len.Type()))
+	cp := to64(x.val(fr, t.Cap).T, isSigned(t.Cap.Type()))
 	if fr.safety {
 		g := And(BVCmp("bvsge", ln, BVU(0, 64)), BVCmp("bvsle", ln, cp))
 		if g != True {
